@@ -141,6 +141,68 @@ Definition tick_clauses (c : config) (g : ghost) (o : obs) (t : Z) : list string
 
 Definition z_str (z : Z) : string := z_to_string z.
 
+(* ---- clauses on every accepted step, message level or keeper level *)
+Definition otot (o : obs) (n : string) : Z := match odapp o n with Some p => snd p | None => 0 end.
+Definition lp_entry := (string * Z * Z * Z * list Z)%type.
+Definition lp_den (e : lp_entry) : string := fst (fst (fst (fst e))).
+Definition lp_sup (e : lp_entry) : Z := snd (fst (fst (fst e))).
+Definition lp_held (e : lp_entry) : Z := snd (fst (fst e)) + snd (fst e) + zsum (snd e).
+Definition lp_user (e : lp_entry) (i : nat) : Z := nth i (snd e) 0.
+Definition olp (o : obs) (den : string) : lp_entry :=
+  match find (fun e => String.eqb (lp_den e) den) (o_lp o) with Some e => e | None => (den, 0, 0, 0, []) end.
+(* pool-native: the recorded pool bonds of all dApps move exactly by the ukex that entered / left the module;
+   lp-supply:  the LP supply moves exactly by what was minted into / burnt out of the holders' balances *)
+Definition flow_clauses (prev o : obs) : list string :=
+  cl "pool-native" (zsum (map snd (o_dapps o)) - zsum (map snd (o_dapps prev)) =? o_mod o - o_mod prev)
+  ++ cl "lp-supply" (forallb (fun e => lp_sup e - lp_sup (olp prev (lp_den e)) =? lp_held e - lp_held (olp prev (lp_den e))) (o_lp o)).
+
+(* keeper-level swap / redeem / convert of user u on dApps n (and n2) *)
+Definition kframe_ok (prev o : obs) (i : nat) (n n2 : string) : bool :=
+  (forallb (fun j => Nat.eqb j i || (obal prev j =? obal o j)) (seq 0 (List.length users))
+   && list_eqb (fun x y => (String.eqb (fst (fst x)) (fst (fst y)) && String.eqb (snd (fst x)) (snd (fst y)) && (snd x =? snd y))%bool)
+               (o_bonds prev) (o_bonds o)
+   && Nat.eqb (List.length (o_dapps prev)) (List.length (o_dapps o))
+   && forallb (fun e => String.eqb (fst (fst e)) n || String.eqb (fst (fst e)) n2
+                        || match odapp prev (fst (fst e)) with Some p => (fst p =? snd (fst e)) && (snd p =? snd e) | None => false end)
+              (o_dapps o))%bool.
+Definition keeper_clauses (c : config) (prev ob : obs) (o : op) : list string :=
+  match o with
+  | KSwap u n _ b _ =>
+      if o_ok ob then
+        match uidx u with None => ["user"%string] | Some i =>
+          cl "frame" (kframe_ok prev ob i n n)
+          (* the pool bond grows by exactly what the user paid *)
+          ++ cl "pool-native" ((otot ob n - otot prev n =? b) && (obal prev i - obal ob i =? b))
+          (* the LP handed out is the exact amount S*b/(T+b) rounded up: less than one unit above it; supply only shrinks *)
+          ++ cl "nofree-step" (forallb (fun e => let out := lp_user e i - lp_user (olp prev (lp_den e)) i in
+                                          (out <=? 0) || (out * (otot prev n + b) <? lp_sup (olp prev (lp_den e)) * b + (otot prev n + b))) (o_lp ob)
+                               && forallb (fun e => lp_sup e <=? lp_sup (olp prev (lp_den e))) (o_lp ob))
+        end
+      else cl "reject" (same_state prev ob)
+  | KRedeem u n den x _ =>
+      if o_ok ob then
+        match uidx u with None => ["user"%string] | Some i =>
+          let r := obal ob i - obal prev i in
+          cl "frame" (kframe_ok prev ob i n n)
+          (* the pool bond falls by at least what the user received, the user returned exactly x LP *)
+          ++ cl "pool-native" ((r <=? otot prev n - otot ob n) && (0 <=? r) && (lp_user (olp prev den) i - lp_user (olp ob den) i =? x))
+          (* the payout is the exact amount T*x/(S+x) rounded up: less than one unit above it *)
+          ++ cl "nofree-step" ((r * (lp_sup (olp prev den) + x) <? otot prev n * x + (lp_sup (olp prev den) + x))
+                               && forallb (fun e => lp_sup e <=? lp_sup (olp prev (lp_den e))) (o_lp ob))
+        end
+      else cl "reject" (same_state prev ob)
+  | KConvert u n n2 den x =>
+      if o_ok ob then
+        match uidx u with None => ["user"%string] | Some i =>
+          cl "frame" (kframe_ok prev ob i n n2)
+          (* a conversion neither pays ukex to the user nor takes any; it consumes exactly x LP of the source *)
+          ++ cl "pool-native" ((obal ob i =? obal prev i) && (String.eqb n n2 || (lp_user (olp prev den) i - lp_user (olp ob den) i =? x)))
+          ++ cl "nofree-step" (forallb (fun e => lp_sup e <=? lp_sup (olp prev (lp_den e))) (o_lp ob))
+        end
+      else cl "reject" (same_state prev ob)
+  | _ => []
+  end.
+
 Fixpoint check_steps (c : config) (g : ghost) (steps : list (op * obs)) (n : Z) : list string :=
   match steps with
   | [] => []
@@ -148,7 +210,7 @@ Fixpoint check_steps (c : config) (g : ghost) (steps : list (op * obs)) (n : Z) 
       let t := match o with OTick dt => if o_ok ob then g_now g + dt else g_now g | _ => g_now g end in
       let msg := is_msg_op o in
       let here :=
-        if negb msg then [] else
+        if negb msg then keeper_clauses c (g_prev g) ob o ++ state_clauses c ob ++ flow_clauses (g_prev g) ob else
         (match o with
          | OCreate u _ _ n _ _ | OBond u n _ _ | OReclaim u n _ _ => user_clauses g ob u n
          | OTick _ => if o_ok ob then tick_clauses c g ob t else cl "reject" (same_state (g_prev g) ob)
@@ -159,7 +221,7 @@ Fixpoint check_steps (c : config) (g : ghost) (steps : list (op * obs)) (n : Z) 
                | Some i => cl "nofree" (net_of g u + (obal ob i - obal (g_prev g) i) <=? 0)
                end
              else cl "reject" (same_state (g_prev g) ob)
-         | _ => [] end) ++ state_clauses c ob in
+         | _ => [] end) ++ state_clauses c ob ++ flow_clauses (g_prev g) ob in
       match here with
       | [] =>
           let ct := match o with OCreate _ _ _ nm _ _ => if o_ok ob then (nm, g_now g) :: g_ctime g else g_ctime g | _ => g_ctime g end in
